@@ -565,6 +565,7 @@ def tlc_histories(rep, depth, haspart, hassink=False):
 
 def run_history(args):
     idx, cfg, lay, hists = args
+    import numpy as np
     import osyris
     out = []
     d = work_dir(f"h{idx}")
@@ -590,8 +591,17 @@ def run_history(args):
                             if g == "sink":
                                 # file order unless the producing call asked for sorted sinks (every column ascends with the sink number)
                                 by = calls[src[g] - 1]
-                                rows = sorted(cfg["sink_order"]) if by["kind"] == "sort" and by["group"] == "sink" else cfg["sink_order"]
+                                rows = sorted(cfg["sink_order"]) if by["kind"] == "sort" and by["group"] == "sink" else "any"
                                 dd = check_sink(cfg, cfg["sink_sc"], ds, rows)
+                                if dd is None and rows == "any":
+                                    # the row order of an unsorted load is whatever a fresh dataset gives for the same call
+                                    fresh = osyris.RamsesDataset(cfg["nout"], path=d)
+                                    fresh.load(select=["sink"])
+                                    for key in ds["sink"].keys():
+                                        a, b = common.comps_of(ds["sink"][key]), common.comps_of(fresh["sink"][key])
+                                        if any(not np.array_equal(a[c].values, b[c].values) for c in a):
+                                            dd = f"{key}: rows {[a[c].values.tolist() for c in a]} are ordered differently from a fresh load {[b[c].values.tolist() for c in b]}"
+                                            break
                                 if dd:
                                     detail = f"after call {step}: group sink differs from a fresh load of call {src[g]}: {dd}"
                                     break
@@ -718,12 +728,19 @@ def check_sink(cfg, sc, ds, rows=None):
     ud, ul, ut = cfg["units"]
     col = {c["name"]: (k, c) for k, c in enumerate(e["cols"])}
 
+    perm = {}
+
     def check_col(name, arr):
         k, c = col[name]
-        want = [float((r + 1) * 16 + k) if name != "id" else float(r + 1) for r in (range(e["nsink"]) if rows is None else rows)]
+        want = [float((r + 1) * 16 + k) if name != "id" else float(r + 1) for r in (range(e["nsink"]) if rows is None or rows == "any" else rows)]
         u = c["unit"]
         sp = sparse_of_pint(arr.unit)
         vals = np.atleast_1d(arr.values).astype(float).tolist()
+        if rows == "any" and len(vals) == e["nsink"]:
+            # the order of the rows is not promised: one permutation (taken from the first column seen) must order every column
+            if "p" not in perm:
+                perm["p"] = sorted(range(len(vals)), key=lambda i: vals[i])
+            vals = [vals[i] for i in perm["p"]]
         if len(vals) != e["nsink"]:
             return f"{name}: expected {e['nsink']} rows got {len(vals)}"
         if u[0] in ("one", "legacy1"):
